@@ -581,3 +581,10 @@ def r08_10(ctx):
 @rule("R08.11", "C08", "a routine body computes what its C source computes also around `return`: nothing of the body runs after a return", min_instances=1)
 def r08_11(ctx):
     return_ends_routine(ctx)
+
+
+@rule("R08.12", "C08", "a call in condition position (`if (f(x))`) runs where the statement stands: the branch that tests its value sequences the call (and the store of its result) right in front of itself, whatever the body looks like", min_instances=6)
+def r08_12(ctx):
+    from .c06 import condition_effects_are_sequenced
+
+    condition_effects_are_sequenced(ctx)
